@@ -54,6 +54,11 @@ func placedAttached(c *Ctx) {
 					if !f.present {
 						if i := strings.LastIndex(f.mexpr, "."); i >= 0 {
 							placedField = f.mexpr[i+1:]
+						} else if def, has := singleDefs(comp.pkg, comp.fd.Body)[f.m]; has {
+							// the set bound to a local first: added := s.addedDict
+							if sel, isSel := def.(*ast.SelectorExpr); isSel {
+								placedField = sel.Sel.Name
+							}
 						}
 					}
 				}
@@ -87,6 +92,14 @@ func placedAttached(c *Ctx) {
 					continue
 				}
 				sel, ok := ix.X.(*ast.SelectorExpr)
+				if !ok {
+					// a local alias of the set
+					if id, isId := ix.X.(*ast.Ident); isId {
+						if def, has := singleDefs(d.pkg, d.fd.Body)[objOf(d.pkg, id)]; has {
+							sel, ok = def.(*ast.SelectorExpr)
+						}
+					}
+				}
 				if !ok || sel.Sel.Name != placedField {
 					continue
 				}
